@@ -351,6 +351,7 @@ Dispatch(e) ==
       [] e.e = "MSel" -> EvMSel(e)
       [] e.e = "End" -> EvEnd(e)
       [] e.e = "Abort" -> EvAbort(e)
+      [] e.e = "OutOfRange" -> Res(s, {Hit("OutOfRange")}, cx)
       [] OTHER -> Res(s, {Hit("UnknownEvent:" \o e.e)}, cx)
 
 \* coverage: which situations the recorded executions actually exercised
